@@ -43,6 +43,8 @@ def image_coq(im, parent_rsteps):
 def modelable(inst):
     if inst.get("concurrent") or not inst.get("steps"):
         return False
+    if inst.get("op") in ("mergeself",) or not inst.get("isorder", True):
+        return False  # replacement inside the out-of-order directory: direct oracle only (see finding C03-selflogdir)
     for s in inst["steps"]:
         if s["k"] in ("other", "mkdir"):
             return False
@@ -77,6 +79,23 @@ CODES = {1: "step list does not start with create/write/sync of the intent log",
          31: "visible files after crash+restart differ from model recover", 32: ".init left after restart",
          33: "the recovery pass' mutations lead to another state than the model's recover",
          41: "visible files after double crash + restart differ from model recover", 42: ".init left after double crash + restart"}
+
+
+def selflogdir_signature(inst, j, f):
+    """intent log of an UNORDERED replacement (isOrder=false) is complete at the crash, the ordered directory holds a file
+    with the base name of a new file of the log and a file with the base name of an old file of the log, and the failure
+    is a changed answer"""
+    if inst.get("isorder", True) or j is None or "answers changed" not in f:
+        return False
+    im = inst["images"][j]
+    if im["k"] < 2:
+        return False
+    names = inst["names"]
+    onames = {n[2:] for n in names if n.startswith("o/")}
+    present_o = {names[e["id"]][2:] for e in inst["fs0"] if names[e["id"]].startswith("o/") and not e["init"]}
+    new_hit = any(names[n][2:] in present_o for n in inst["new"])
+    old_hit = any(names[o][2:] in present_o for o in inst["old"])
+    return new_hit and old_hit and bool(onames)
 
 
 def main(ck):
@@ -128,6 +147,14 @@ def main(ck):
             nimg += 1
             for f in im.get("fail") or []:
                 oracle.append((inst, j, f))
+    rest = []
+    for inst, j, f in oracle:
+        if selflogdir_signature(inst, j, f) and ck.match_finding("C03-selflogdir"):
+            ck.known_finding("C03-selflogdir", "rows of an ordered file are lost after a crash during an out-of-order merge-self replacement "
+                                               "(start-up processes the intent log in the ordered directory)")
+        else:
+            rest.append((inst, j, f))
+    oracle = rest
     for inst, j, f in oracle[:3]:
         im = inst["images"][j] if j is not None else None
         ck.violation({"kind": "direct-oracle", "what": f, "case": inst["case"], "op": inst["op"], "history": inst["hist"],
